@@ -171,13 +171,15 @@ def explain(case, res, bits):
         extra += " " + res["parse_error"]
     if not res["imports_ok"]:
         extra += " an import line of the stub fails"
+    if not failing and not extra:
+        extra = " every name resolves, but an annotation evaluates to a different type than the traced one (a name is shadowed)"
     return (f"stub of [{show_case(case)}] is not self-contained / does not denote the traced types:{extra} "
             + "; ".join(failing[:4]))[:900]
 
 
 def run(ctx):
     rnd = random.Random(ctx.seed + 11)
-    n = 150 if ctx.tier == "quick" else 3000
+    n = 300 if ctx.tier == "quick" else 6000
     cases = corpus_cases() + render_gen.generate(rnd, n)
     impl, bad, cls = check_cases(ctx, cases)
     failures, mismatches = [], []
